@@ -104,15 +104,15 @@ func c01Compare(a *ast.Ast, text string, twin int) {
 var c01Wrap = []string{"maybe %", "maybe % fewest", "at least 0 %", "at least 1 %", "at least 1 % fewest", "at most 2 %", "at most 2 % fewest", "between 1 and 2 %", "exactly 2 %", "at least 2 %"}
 
 var c01Pos = []string{
-	"find all %1 'b'",                        // Q1(Q2('a')) 'b'            (%1 = Q1 over Q2 over 'a')
-	"find all %2",                            // Q1((Q2('a') 'b'))
-	"find all %3 'c'",                        // Q1(('a' or (Q2('b')))) 'c'
-	"find all %4",                            // Q1('a') Q2('a')
-	"find all %5",                            // Q1(('a' = x)) Q2(x)   — captures and back-references under quantifiers
-	"find all {%6} = s s",                    // {Q1('a') Q2('b')} = s s
-	"set p to pattern %6 find all p 'c' p",   // the same body as a global pattern, referenced twice
-	"find all {%7} = s %8",                   // {'a' Q2('b')} = s  Q1((',' s)) : a call inside every loop form
-	"set p to pattern %7 find all p %9",      // the same through a global pattern referenced before and inside the loop
+	"find all %1 'b'",                      // Q1(Q2('a')) 'b'            (%1 = Q1 over Q2 over 'a')
+	"find all %2",                          // Q1((Q2('a') 'b'))
+	"find all %3 'c'",                      // Q1(('a' or (Q2('b')))) 'c'
+	"find all %4",                          // Q1('a') Q2('a')
+	"find all %5",                          // Q1(('a' = x)) Q2(x)   — captures and back-references under quantifiers
+	"find all {%6} = s s",                  // {Q1('a') Q2('b')} = s s
+	"set p to pattern %6 find all p 'c' p", // the same body as a global pattern, referenced twice
+	"find all {%7} = s %8",                 // {'a' Q2('b')} = s  Q1((',' s)) : a call inside every loop form
+	"set p to pattern %7 find all p %9",    // the same through a global pattern referenced before and inside the loop
 }
 
 func VerifC01GenCount() int { return len(c01Pos) * len(c01Wrap) * len(c01Wrap) }
